@@ -296,6 +296,37 @@ def loop_tail_shapes(rng, n, yields=False, family=None):
     return out
 
 
+def capacity_boundary_shapes(rng, n):
+    N = gen.N
+    """strings whose capacity sits at a width boundary of the length counter (255 / 256 / 257, terminated or not), filled to the brim:
+    the out-of-space condition must strike at exactly the byte that no longer fits"""
+    L = lambda s: N("match", p=N("lit", bs=s, form="s"))
+    out = []
+    for _ in range(n):
+        cap = rng.choice([255, 256, 256, 257])
+        s0 = N("out", name="s0", typ=rng.choice(["str", "ustr", "ustr"]), size=cap, default=None)
+        i0 = N("out", name="i0", typ="int", signed=None, width=None, default=0)
+        letters = N("rx", tree=("op", ("set", [("range", 97, 122)], False), "+"), binary=False)
+        rest = N("rx", tree=("op", ("set", [("range", 97, 122)], False), "*"), binary=False)
+        body = [N("appendm", var="s0", p=letters), L(b";")]
+        k = rng.random()
+        if k < 0.6:
+            stm = N("try", body=body, reasons=["outofspace"], handler=[N("assign", var="i0", e=N("len", name="s0")), N("hook", name="h0"), N("match", p=rest), L(b";")])
+            prog = [stm, N("hook", name="h1")]
+        else:
+            prog = body + [N("hook", name="h1")]
+        out.append(N("prog", outs=[s0, i0], hooks=["h0", "h1"], fcodes=[], ycodes=[], macros=[], args=[], body=prog))
+    return out
+
+
+def capacity_inputs(rng, ast, ins):
+    cap = ast.outs[0].size
+    out = []
+    for n in (cap - 2, cap - 1, cap, cap + 1, 2 * cap + 3):
+        out.append(bytes(rng.choice(b"abcdefghijklmnopqrstuvwxyz") for _ in range(n)) + b";")
+    return out
+
+
 def add_shapes(ctx, rng, pool, asts, counter, levels=("-O0", "-O1", "-O2", "-O3")):
     """compile harness ASTs at a random level and put the accepted ones into a run_pool pool"""
     n = 0
@@ -345,6 +376,10 @@ def run(ctx: Ctx):
     ctx.cov["programs_accepted"] = acc_n
     ctx.extra["node_kinds_in_accepted"] = kinds
     run_pool(ctx, rng, quick, pool, "c01")
+    cpool = []
+    add_shapes(ctx, rng, cpool, capacity_boundary_shapes(rng, 6 if quick else 40), "capacity_boundary_shapes_accepted")
+    run_pool(ctx, rng, quick, cpool, "c01", nwalk=4, enum_budget=10, cap=12, extra_inputs=capacity_inputs)
+    ctx.floor("capacity_boundary_shapes_accepted", 3)
     ctx.floor("runs_checked", 3000 if quick else 60000)
     ctx.floor("hook_events", 300)
     ctx.floor("yield_events", 30)
